@@ -38,7 +38,10 @@
 // TODO: Other sizes? Does anyone need more than 5 slots?
 
 use std::cell::UnsafeCell;
+#[cfg(not(sighook_verif))]
 use std::sync::atomic::{AtomicU16, Ordering};
+#[cfg(sighook_verif)]
+use signal_hook_registry::verif::atomic::{AtomicU16, Ordering};
 
 const SLOTS: usize = 5;
 const BITS: u16 = 3;
@@ -135,6 +138,8 @@ impl<T> Channel<T> {
     /// If the value doesn't fit, it is silently dropped. Never blocks.
     pub fn send(&self, val: T) {
         if let Some(empty_idx) = dequeue(&self.empty) {
+            #[cfg(sighook_verif)]
+            signal_hook_registry::verif::event("cell_write", self.storage[empty_idx as usize - 1].get() as usize as u64, empty_idx as u64);
             unsafe { *self.storage[empty_idx as usize - 1].get() = Some(val) };
             enqueue(&self.full, empty_idx);
         }
@@ -145,6 +150,8 @@ impl<T> Channel<T> {
     /// Or returns `None` if the channel is empty. Never blocks.
     pub fn recv(&self) -> Option<T> {
         dequeue(&self.full).map(|idx| {
+            #[cfg(sighook_verif)]
+            signal_hook_registry::verif::event("cell_take", self.storage[idx as usize - 1].get() as usize as u64, idx as u64);
             let result = unsafe { &mut *self.storage[idx as usize - 1].get() }
                 .take()
                 .expect("Full slot with nothing in it");
